@@ -62,6 +62,43 @@ PROPS = {
         "assumptions": ["dialect tags are read from the implementation's metadata (the statement does not say how they arise)", "words that lex into several tokens are skipped (counted)"],
         "exhaustive_part": "every spelling the reference expansion derives (~132 k) x 4 dialects, as a one-word document",
     },
+    "C07": {
+        "level": "fault_enumeration",
+        "steps": [("py", "c07", "run")],
+        "rule": "(1) histories of add-to-user-dictionary / add-to-file-dictionary / lint / restart on the real harper-ls over Unicode words (diacritics, curly apostrophes, case variants, CJK), "
+                "two documents, optionally a dictionary file already on disk; after every step each document's diagnostics are compared with a reference server running on dictionary files "
+                "written by the checker, and the server's dictionary files are re-read by an independent line parser; (2) crash points: the add command is traced with strace -P <dictionary "
+                "file>, then repeated with SIGKILL injected on entry to every syscall that touches the file (3 file sizes quick, 10 thorough, incl. > 8 KiB so the writer flushes more than once); "
+                "the file must reload to the old or the new word set and a new server must start on it; distinct = history shape + (size, syscall, n) kill points",
+        "assumptions": ["process death only (no power loss / page-cache loss: there is no fsync oracle)", "buffers are saved before a word is added (the disk re-read of C09 is not re-litigated here)"],
+    },
+    "C08": {
+        "level": "exploration",
+        "steps": [("py", "c08", "run")],
+        "rule": "documents in 8 language ids with astral / combining characters, tabs, LF and CRLF, with and without trailing newline, lints on first and last line, empty lines; for each, code "
+                "actions are requested at every position of every line; the lints revealed by the HarperIgnoreLint commands (char span + suggestions) are cross-checked with the published "
+                "ranges and the returned text edits through an independent char<->UTF-16 position model and a reference splice; evaluations = positions probed; "
+                "non-trivial = document with >= 1 lint; distinct = (language, #lints, multi-byte?, CRLF?, trailing newline?, text hash)",
+        "assumptions": ["the lint JSON in the HarperIgnoreLint command is the server's own lint (that is what it executes when the user ignores it)"],
+    },
+    "C09": {
+        "level": "exploration",
+        "steps": [("py", "c09", "run")],
+        "rule": "histories over three documents (saved file, Markdown file, untitled buffer) of didOpen / didChange / didSave / didClose / add-to-dictionary / didChangeConfiguration / "
+                "didChangeWatchedFiles(Deleted), checked after every step at quiescence (publishes counted, no configuration request outstanding); batches of 2-4 didChange sent back-to-back "
+                "with all workspace/configuration replies held and then released in a chosen permutation (quick: sampled, thorough: enumerated), the completion order read back from the "
+                "publishes; expected = reference server on the newest client text under current dictionaries / settings; distinct = history shapes + (batch size, reply order) schedules realised",
+        "assumptions": ["interleavings at await points other than the configuration round-trip (file I/O completion) are sampled by repetition, not controlled",
+                        "reference = long-lived per-environment reference server, audited every 12th query against a fresh single-shot server"],
+    },
+    "C10": {
+        "level": "exploration",
+        "steps": [("py", "c10", "run")],
+        "rule": "syscall audit (strace -f, network class + every file-creating / modifying call + execve) of real harper-ls sessions exercising every notification and command except "
+                "HarperOpen (stdio with configured paths, stdio with default paths, TCP mode) and of an in-process library + JS-API workload; allow-list derived from the settings the client "
+                "sent; evaluations = syscalls inspected; distinct = distinct syscall kinds + distinct paths written",
+        "assumptions": ["only what the exercised binaries do is observed; the 'complete resolved dependency set' clause is static and out of reach (a listing of network-capable crates in Cargo.lock is printed, not a verdict)"],
+    },
     "C11": {
         "level": "exploration",
         "steps": [("hv", "C11", {"_scale": 4.0})],
@@ -197,6 +234,36 @@ META = {
                       "of non-words must be flagged at their exact span, and every suggestion seen (~50 k) must be a listed word of the active dialect.",
         "level_note": "Trusted: the 150-line reference expansion (reconciled with the implementation's word set on every run: a difference in either direction is itself a finding).",
     },
+    "C07": {
+        "engine": "E2-lsp (+strace fault injection; JS import path in E1/C16)",
+        "design_ref": "DESIGN.md §5 C07",
+        "technique": "runtime monitoring with fault injection: sequential dictionary model over the real server, independent re-read of dictionary files, SIGKILL injected at every syscall of a save (strace)",
+        "level_text": "Fault enumeration: every syscall that touches the dictionary file during a save is a kill point and all of them are executed for several file sizes; plus exploration of "
+                      "add / lint / restart histories against a reference server.",
+        "level_note": "Trusted: strace's syscall-entry injection, the checker's own dictionary files for the reference. Kill = process death only.",
+    },
+    "C08": {
+        "engine": "E2-lsp",
+        "design_ref": "DESIGN.md §5 C08",
+        "technique": "runtime monitoring: black-box cross-check of published ranges, code actions at every position and text edits against an independent UTF-16 position model",
+        "level_text": "Exploration: ~65 documents per quick run (1500 thorough) x every position of every line (thousands of code-action requests), 8 language ids.",
+        "level_note": "Trusted: the 40-line position model in lsp/client.py.",
+    },
+    "C09": {
+        "engine": "E2-lsp",
+        "design_ref": "DESIGN.md §5 C09",
+        "technique": "runtime monitoring: offline checker over the client-side event log with a defect-aware sequential model; handler completion order controlled by holding workspace/configuration replies",
+        "level_text": "Exploration of histories x schedules: ~150 histories per quick run checked after every step; batches in flight are completed in chosen orders (all <= 4! orders enumerated in thorough).",
+        "level_note": "Trusted: the sequential model in lsp/c09.py; completion order is observed from the publishes, not assumed.",
+    },
+    "C10": {
+        "engine": "E2-lsp / E1 under strace",
+        "design_ref": "DESIGN.md §5 C10",
+        "technique": "runtime monitoring: strace syscall audit (network + file mutations) of server sessions and the library workload",
+        "level_text": "Exploration: every notification and command of the server (except the user-initiated open-URL command) in stdio and TCP mode, custom and default paths, plus the JS-API workload; "
+                      "every network-class syscall and every file-creating / modifying syscall of the traced processes and their children is judged.",
+        "level_note": "Trusted: strace -f sees all syscalls of the process tree. The dependency-set clause is not decidable by this family.",
+    },
     "C11": {
         "engine": "E1-hv (hook H1)",
         "design_ref": "DESIGN.md §5 C11",
@@ -267,8 +334,4 @@ META = {
 }
 
 NOT_CLAIMED = {
-    "C07": "check not built yet (work in progress in this session)",
-    "C08": "check not built yet (work in progress in this session)",
-    "C09": "check not built yet (work in progress in this session)",
-    "C10": "check not built yet (work in progress in this session)",
 }
